@@ -299,7 +299,7 @@ impl RunCfg {
             9 => [55, 5, 12, 12, 1, 0, 1, 1, 1, 1, 4, 3, 2, 0, 0],
             10 => [50, 3, 1, 0, 10, 0, 10, 8, 5, 1, 6, 2, 2, 0, 0],
             11 => [80, 5, 4, 2, 3, 4, 0, 0, 0, 2, 2, 1, 0, 0, 0],
-            12 => [80, 8, 1, 0, 6, 0, 1, 1, 0, 2, 2, 1, 0, 0, 0],
+            12 => [80, 8, 1, 2, 6, 0, 1, 1, 0, 2, 2, 1, 0, 0, 0],
             13 => [85, 3, 1, 1, 1, 0, 1, 1, 0, 2, 2, 1, 3, 0, 0],
             14 => [60, 3, 3, 1, 2, 2, 0, 0, 0, 25, 3, 1, 0, 0, 0],
             16 => [60, 5, 1, 0, 1, 16, 2, 1, 1, 2, 2, 1, 3, 0, 0],
